@@ -18,6 +18,11 @@
                  requesters' CURRENT peer ids; a requester that was reset and re-picked in between
                  gets its new, innocent peer stopped.
      TipSlack  : see TipWhenHonest.
+     KnownPeers: IsCaughtUp (pool.go) means "within one block of the best peer the node KNOWS of at that
+                 moment" (and at least one peer known).  With a low-lying liar as the only known peer
+                 the node legitimately hands over at once -- at height 0 if need be -- and consensus
+                 catches up from there; Handover below is enabled exactly then.  TipWhenHonest /
+                 ReachesTip therefore speak only of hand-overs decided with an honest peer in the pool.
    Repaired defects (old behaviour = Weak_ switch): Weak_SeenCommitUnchecked (S9: the commit stored as
    seen commit was only checked by the early-exit VerifyCommitLight), Weak_StaleMaxPeerHeight (a peer
    that lowers its reported height leaves maxPeerHeight stale for good: IsCaughtUp never holds). *)
